@@ -4,7 +4,7 @@ from __future__ import annotations
 import inspect
 import itertools
 
-from vlib import core, coqcorr, elem
+from vlib import core, coqcorr, elem, family, ops
 
 LEVEL = "proof"
 
@@ -26,12 +26,54 @@ def run(ctx):
     if ctx.tier == "thorough":
         eager_pass(ctx, specs, out)
     nonelementwise(ctx)
+    scalar_identity_sweep(ctx)
     f = ctx.work / "C17_static.v"
     f.write_text((core.COQ / "Props" / "C17.v").read_text())
     ctx.compile("Props/C17.v: meaning of the domain predicate + the law on the committed model table", f, kind="theorem")
     ctx.coverage.update({
         "rule": "exhaustive over the finite table: every element-wise function and operator x every operand tuple (24x24 dtype pairs, Python scalars both orders, reflected operators) traced on placeholders; thorough adds data-holding arrays. Distinct by (function, operand tuple, how).",
         "exhaustive": True, "traces_validated_against_impl": len(specs)})
+
+
+def scalar_identity_sweep(ctx):
+    """Strings mixed with non-strings through Python scalars of EVERY small value (identity elements included: 0, 1, 0.0,
+    1.0, True, False, '' — the values an 'x + 0 is x' shortcut would look for), both operand orders, operators and
+    functions, data-holding and placeholder arrays: always a TypeError."""
+    ops_ = [("+", "add"), ("-", "subtract"), ("*", "multiply"), ("/", "divide"), ("**", "pow"), ("<", "less"), ("&", "bitwise_and"), ("|", "bitwise_or")]
+    nonstr = ["0", "1", "0.0", "1.0", "True", "False", "-1", "2"]
+    strs = ["''", "'a'", "'0'"]
+    cases = []
+    for sym, fn in ops_:
+        for arr, scalars in (("utf8", nonstr), ("nutf8", nonstr), ("int64", strs), ("float64", strs), ("bool", strs), ("nint64", strs)):
+            if arr in ("bool",) and fn in ("divide", "pow", "subtract"):
+                continue
+            for sc in scalars:
+                for form in (f"x {sym} {sc}", f"{sc} {sym} x", f"ndx.{fn}(x, {sc})", f"ndx.{fn}({sc}, x)"):
+                    if arr.endswith("utf8"):
+                        data = {"dtype": arr, "shape": [2], "data": ["s:p", "s:q"]}
+                    elif arr == "bool":
+                        data = {"dtype": arr, "shape": [2], "data": [True, False]}
+                    elif arr == "float64":
+                        data = {"dtype": arr, "shape": [2], "data": [ops.fhex(1.5), ops.fhex(2.0)]}
+                    else:
+                        data = {"dtype": arr, "shape": [2], "data": [1, 2]}
+                    if arr.startswith("n"):
+                        data["mask"] = [False, True]
+                    cases.append({"id": f"si-{len(cases)}", "inputs": {"x": data}, "impl": f"out = {form}", "oracle": None, "eager": True,
+                                  "lazy_subsets": [{"names": ["x"]}], "meta": {"func": fn, "dtype": arr, "dclass": family.dclass(arr), "scalar": sc, "form": form}})
+    res = core.run_cases("harness.h_ops", cases, workers=14, per_case_timeout=120)
+    for c in cases:
+        r = res.get(c["id"]) or {}
+        ctx.count(("si", c["impl"], c["meta"]["dtype"]), nontrivial=True)
+        outs = [("eager", r.get("eager") or {})] + [("traced", t) for t in r.get("traced", [])]
+        for mode, o in outs:
+            fam = o.get("raise")
+            if fam is None and ("ok" in o or "meta" in o):
+                ctx.finding({"law": "string-scalar-mix", "kind": "returns", "func": c["meta"]["func"], "dtype": c["meta"]["dtype"], "scalar": c["meta"]["scalar"], "mode": mode},
+                            f"`{c['meta']['form']}` with x of dtype {c['meta']['dtype']} ({mode}): returns {str(o.get('ok') or o.get('meta'))[:100]} instead of raising TypeError", {"case": c, "outcome": o})
+            elif fam is not None and fam != "TE":
+                ctx.finding({"law": "string-scalar-mix", "kind": "wrong-exception", "func": c["meta"]["func"], "dtype": c["meta"]["dtype"], "scalar": c["meta"]["scalar"], "mode": mode, "raised": fam},
+                            f"`{c['meta']['form']}` with x of dtype {c['meta']['dtype']} ({mode}): raises {o.get('cls')} (not a TypeError)", {"case": c, "outcome": o})
 
 
 ARR = ["AUtf8", "ANUtf8", "ABool", "ANBool", "AInt", "AFloat", "ANInt", "AStruct"]
